@@ -90,11 +90,13 @@ var c19KeyNames = []string{"a", "b", "c", `q"k`, "é", "", "z\n", "d"}
 // --- RuleASTNodes
 type ruleMap struct{ m *schema.RuleASTNodes }
 
-func rv(v int) schema.RuleASTNode { return schema.RuleASTNode{Value: strconv.Itoa(v), TokenType: schema.TokenTypeNumber} }
+func rv(v int) schema.RuleASTNode {
+	return schema.RuleASTNode{Value: strconv.Itoa(v), TokenType: schema.TokenTypeNumber}
+}
 func rvi(n schema.RuleASTNode) int { i, _ := strconv.Atoi(n.Value); return i }
 
 func (r ruleMap) Name() string { return "schema.RuleASTNodes" }
-func (r ruleMap) Set(k, v int)  { r.m.Set(c19KeyNames[k], rv(v)) }
+func (r ruleMap) Set(k, v int) { r.m.Set(c19KeyNames[k], rv(v)) }
 func (r ruleMap) Update(k int, f func(int) int) {
 	r.m.Update(c19KeyNames[k], func(n schema.RuleASTNode) schema.RuleASTNode { return rv(f(rvi(n))) })
 }
@@ -141,11 +143,13 @@ func (r ruleMap) KeyJSON(k int) string  { return c19KeyNames[k] }
 // --- ASTNodes
 type astMap struct{ m *schema.ASTNodes }
 
-func av(v int) schema.ASTNode  { return schema.ASTNode{Value: strconv.Itoa(v), TokenType: schema.TokenTypeNumber} }
+func av(v int) schema.ASTNode {
+	return schema.ASTNode{Value: strconv.Itoa(v), TokenType: schema.TokenTypeNumber}
+}
 func avi(n schema.ASTNode) int { i, _ := strconv.Atoi(n.Value); return i }
 
 func (r astMap) Name() string { return "schema.ASTNodes" }
-func (r astMap) Set(k, v int)  { r.m.Set(c19KeyNames[k], av(v)) }
+func (r astMap) Set(k, v int) { r.m.Set(c19KeyNames[k], av(v)) }
 func (r astMap) Update(k int, f func(int) int) {
 	r.m.Update(c19KeyNames[k], func(n schema.ASTNode) schema.ASTNode { return av(f(avi(n))) })
 }
@@ -208,7 +212,7 @@ func conIdx(t constraint.Type) int {
 type conMap struct{ m *ischema.Constraints }
 
 func (r conMap) Name() string { return "ischema.Constraints" }
-func (r conMap) Set(k, v int)  { r.m.Set(c19ConKeys[k], cv(v)) }
+func (r conMap) Set(k, v int) { r.m.Set(c19ConKeys[k], cv(v)) }
 func (r conMap) Update(k int, f func(int) int) {
 	r.m.Update(c19ConKeys[k], func(n constraint.Constraint) constraint.Constraint { return cv(f(cvi(n))) })
 }
@@ -655,7 +659,7 @@ func init() {
 				c19ApplySet(r, ss)
 			}
 		},
-		Rule: "every sequence of <= L operations (L=4 quick, 5 thorough) over an alphabet of 19 operations {set/delete of 3 keys, update, set-existing, 5 filter predicates, map, 2 find predicates, delete of a never-set key} is applied to a fresh RuleASTNodes, ASTNodes and Constraints container and to a reference insertion-ordered dict; Len/Has/Get/GetValue/Each/EachSafe/MarshalJSON are compared after every operation; plus random sequences of <= 40 operations over 7 keys (some need JSON escaping) and all StringSet constructor/Add lists of length <= 3 over 3 names. distinct_nontrivial = distinct operation sequences (hashed text), every one of which mutates or queries the container at least once.",
+		Rule:               "every sequence of <= L operations (L=4 quick, 5 thorough) over an alphabet of 19 operations {set/delete of 3 keys, update, set-existing, 5 filter predicates, map, 2 find predicates, delete of a never-set key} is applied to a fresh RuleASTNodes, ASTNodes and Constraints container and to a reference insertion-ordered dict; Len/Has/Get/GetValue/Each/EachSafe/MarshalJSON are compared after every operation; plus random sequences of <= 40 operations over 7 keys (some need JSON escaping) and all StringSet constructor/Add lists of length <= 3 over 3 names. distinct_nontrivial = distinct operation sequences (hashed text), every one of which mutates or queries the container at least once.",
 		MinNontrivialQuick: 10000, MinNontrivialThorough: 100000,
 		Assumptions: []string{"reference model: 40-line insertion-ordered dict in harness/internal/props/c19.go", "encoding/json decides JSON validity and key order of MarshalJSON output",
 			"Constraints.MarshalJSON: the spelling of keys is not judged (documentation silent), only validity, entry count, uniqueness"},
